@@ -177,3 +177,65 @@ def word_class(v):
         if v < 1 << (8 * size):
             return size
     return 16
+
+
+# --------------------------------------------------------------------------- #
+# Twins: files judged straight after one another in the same process that look alike from outside
+def same_size_twin(case, rng):
+    """Same keys, same array lengths, same word sizes - hence a file of exactly the same size, opened under the
+    same descriptor number - but other row ids (interior elements) and another common value of the same class."""
+    entries = []
+    changed = False
+    for coords, ids in case["entries"]:
+        ids = numpy.asarray(ids)
+        if len(ids) >= 3 and int(ids[-1]) - int(ids[0]) > len(ids):
+            lo, hi = int(ids[0]), int(ids[-1])
+            pool = numpy.arange(lo + 1, min(hi, lo + 1 + 50 * len(ids)), dtype=numpy.int64)
+            if len(pool) >= len(ids) - 2:
+                inner = numpy.sort(rng.choice(pool, size=len(ids) - 2, replace=False))
+                new = numpy.concatenate([[lo], inner, [hi]]).astype(U32)
+                if not numpy.array_equal(new, ids):
+                    changed = True
+                entries.append((coords, new))
+                continue
+        entries.append((coords, ids.copy()))
+    common = int(case["common"])
+    cls = word_class(common)
+    for _ in range(8):
+        c2 = draw_in_class(rng, cls)
+        if word_class(c2) == cls and c2 != common and all(c2 != k[0] for k, _ in entries):
+            common = c2
+            changed = True
+            break
+    if not changed:
+        return None
+    t = dict(case, entries=entries, common=common)
+    t["twin"] = "same_size"
+    return t
+
+
+def reinterpreted_twins(rng):
+    """Two files whose coordinate blocks are byte for byte the same under different (arity, word size): n keys of
+    arity 2 over w-byte words, and the n keys of arity 1 over 2w-byte words those bytes also spell."""
+    w = int(gen.pick(rng, [1, 2, 4]))
+    n = int(gen.pick(rng, [1, 2, 3, 9]))
+    top = 2 ** (8 * w)
+    keys = set()
+    while len(keys) < n:
+        c0 = int(rng.integers(0, top)) if rng.random() < 0.5 else int(rng.integers(0, 4))
+        # (coordinates stay below 2^63, as the property quantifies: the high half of an 8-byte word below 2^31)
+        c1 = int(rng.integers(1, top if w < 4 else 2 ** 31)) if rng.random() < 0.7 else int(rng.integers(1, 4))
+        keys.add((c0, c1))
+    keys = list(keys)
+    # the first key carries a coordinate of class w in position 0 (so the narrow file really uses w-byte words)
+    # and every key has a non-zero second coordinate (so the wide file really needs 2w-byte words)
+    if w > 1:
+        keys[0] = (top - 1 - int(rng.integers(0, 3)), keys[0][1])
+    keys = list(dict.fromkeys(keys))
+    arrays = [rowids(rng, int(rng.integers(1, 6)), extremes=False) for _ in keys]
+    common = int(rng.integers(0, min(top, 200)))
+    narrow = {"arity": 2, "entries": list(zip(keys, arrays)), "common": common, "kind": "entries", "twin": "reinterpreted(narrow)"}
+    wide_keys = [(c0 + c1 * top,) for c0, c1 in keys]
+    wide = {"arity": 1, "entries": list(zip(wide_keys, [a.copy() for a in arrays])), "common": common, "kind": "entries",
+            "twin": "reinterpreted(wide)"}
+    return (narrow, wide) if rng.random() < 0.5 else (wide, narrow)
